@@ -45,7 +45,7 @@ func (c c08Cell) String() string {
 func runC08(r *vc.Run, replay string) {
 	r.Rule = "cells = serializer {json, protobuf} x compress type {None, Gzip, Zip, Bzip2, Lz4, Deflate, Zstd, unknown spellings 'gzip', 'Snappy', ''} x threshold {0, 2k, 64k} (+ compression disabled); per cell generated programs over all 17 column kinds (NULL, empty strings, base64/number/JSON look-alikes, full-range 64-bit integers, floats, timestamps, binary) plus large repetitive logs; writer oracle: independent decode of (context, rollback_info) chosen by the context alone == ground-truth row versions; reader oracle: real rollback with validation on answers Rollbacked and restores the pre-state, no panic; distinct_nontrivial = distinct (cell, column kinds, statement kinds) signatures whose undo log was written and read back"
 	r.Assumptions = []string{"an undo log the flush refuses to write (error to the caller, nothing committed) is not a lossy encoding and gets no verdict", "protobuf wire layout transcribed from branch_undo_log.proto; values inside Any/BytesValue are JSON"}
-	per := 6
+	per := 8
 	if r.Tier == "thorough" {
 		per = 40
 	}
@@ -109,7 +109,9 @@ func c08Worker(r *vc.Run, w int, cells []c08Cell, per int) {
 		for i := 0; i < per; i++ {
 			idx++
 			var c *atCase
-			if i >= per-2 {
+			if i <= 1 {
+				c = c08TinyCase(rnd, idx, fmt.Sprintf("e%d_", w), i)
+			} else if i >= per-2 {
 				c = c08BigCase(rnd, idx, fmt.Sprintf("e%d_", w), i == per-1)
 			} else {
 				c = c01GenCase(rnd, idx, atAllKinds, fmt.Sprintf("e%d_", w))
@@ -170,6 +172,22 @@ func c08BigCase(r *vc.Rand, idx int, prefix string, huge bool) *atCase {
 	c.DDL = []string{describeTable(t)}
 	c.fold()
 	c.Feat["big"] = fmt.Sprint(size)
+	c.Feat["pk"] = "int"
+	return c
+}
+
+// c08TinyCase: the smallest logs there are (one row of a key-only or two-column table): compression does not pay off.
+func c08TinyCase(r *vc.Rand, idx int, prefix string, nv int) *atCase {
+	c := &atCase{Name: fmt.Sprintf("%s%04d", prefix, idx), Feat: map[string]string{"big": "tiny"}}
+	t := atGenTable(r, fmt.Sprintf("%s%04dt", prefix, idx), "int", []string{"int"}, nv, 3, false)
+	c.Tables = []*atTable{t}
+	where, wargs := pkWhere(t, t.Rows[0], true)
+	st := atStmt{Kind: "delete", Table: t.Name, SQL: fmt.Sprintf("delete from %s where %s", t.Name, where), Args: wargs,
+		Feat: map[string]string{"stmt": "delete", "params": "true", "rows": "1", "where": "pk"}}
+	c.Groups = []atGroup{{Stmts: []atStmt{st}}}
+	c.DDL = []string{describeTable(t)}
+	c.fold()
+	c.Feat["big"] = "tiny"
 	c.Feat["pk"] = "int"
 	return c
 }
